@@ -235,3 +235,89 @@ def apply(blob: bytes, rng: t.Any, fields: dict, tampers: list[tuple[str, str]],
     if trunc is not None:
         out = out[:trunc]
     return bytes(out), [(p, f, k) for p, f, k in sites]
+
+
+# ---- generic DER tree (for structure-aware mutations) -------------------------------------------------
+def parse_tree(b: bytes) -> list:
+    """-> list of nodes [tag, payload]; payload = bytes (primitive) or list of nodes (constructed)."""
+    out = []
+    off = 0
+    while off < len(b):
+        tag, content, off = blobref.read_tlv(b, off)
+        out.append([tag, parse_tree(content) if tag & 0x20 else bytes(content)])
+    return out
+
+
+def enc_node(node: list, path: tuple, mut: t.Optional[tuple]) -> bytes:
+    """mut = (path, op, arg).  Ops change how exactly one node is encoded."""
+    tag, payload = node
+    if isinstance(payload, list):
+        parts = []
+        for i, ch in enumerate(payload):
+            p = path + (i,)
+            if mut and mut[0] == p and mut[1] == "drop":
+                continue
+            e = enc_node(ch, p, mut)
+            parts.append(e)
+            if mut and mut[0] == p and mut[1] == "dup":
+                parts.append(e)
+        content = b"".join(parts)
+    else:
+        content = payload
+    if mut and mut[0] == path:
+        op, arg = mut[1], mut[2]
+        if op == "wrong_tag":
+            tag = arg
+        elif op == "zero_length":
+            content = b""
+        elif op == "replace":
+            content = arg
+        elif op == "short_content":
+            return bytes([tag]) + blobref.der_len(len(content)) + content[: len(content) // 2]
+        elif op == "overlong":
+            return bytes([tag]) + blobref.der_len(len(content) + arg) + content
+        elif op == "huge_length":
+            return bytes([tag]) + b"\x84\xff\xff\xff\xff" + content
+        elif op == "indefinite":
+            return bytes([tag]) + b"\x80" + content + b"\x00\x00"
+        elif op == "nonminimal":
+            return bytes([tag]) + b"\x82" + len(content).to_bytes(2, "big") + content
+        elif op == "high_tag":
+            return bytes([tag | 0x1F]) + arg + blobref.der_len(len(content)) + content
+    return bytes([tag]) + blobref.der_len(len(content)) + content
+
+
+def all_paths(nodes: list, prefix: tuple = ()) -> list[tuple]:
+    out = []
+    for i, n in enumerate(nodes):
+        p = prefix + (i,)
+        out.append(p)
+        if isinstance(n[1], list):
+            out += all_paths(n[1], p)
+    return out
+
+
+def node_at(nodes: list, path: tuple) -> list:
+    n = nodes[path[0]]
+    for i in path[1:]:
+        n = n[1][i]
+    return n
+
+
+def render(tree: list, mut: t.Optional[tuple], trailing: bytes = b"") -> bytes:
+    out = b""
+    for i, n in enumerate(tree):
+        if mut and mut[0] == (i,) and mut[1] == "drop":
+            continue
+        out += enc_node(n, (i,), mut)
+    return out + trailing
+
+
+def raw_key_identifier(version: int = 1, magic: bytes = b"KDSK", flags: int = 0, l0: int = 361, l1: int = 3, l2: int = 4, rkid: bytes = b"\x11" * 16,
+                       key_info: bytes = b"\x22" * 32, domain: bytes = "d.test\0".encode("utf-16-le"), forest: bytes = "f.test\0".encode("utf-16-le"),
+                       ki_len: t.Optional[int] = None, dom_len: t.Optional[int] = None, for_len: t.Optional[int] = None, cut: t.Optional[int] = None) -> bytes:
+    m = 0xFFFFFFFF
+    b = (struct.pack("<I", version & m) + magic + struct.pack("<IIII", flags & m, l0 & m, l1 & m, l2 & m) + rkid
+         + struct.pack("<III", (len(key_info) if ki_len is None else ki_len) & m, (len(domain) if dom_len is None else dom_len) & m,
+                       (len(forest) if for_len is None else for_len) & m) + key_info + domain + forest)
+    return b if cut is None else b[:cut]
